@@ -106,7 +106,14 @@ def matrix_worker(scn):
         rows = []
         label, argv_fn_idx = scn["cmd"]
         argv_fn = dict(commands(None))[label]
-        for k, cwd in enumerate(CWDS + (["vendor/lib"] if scn.get("git") else []) + ["nested"]):
+        # nested use: the same commands started from INSIDE a task of this project (a task script that calls `cond where`, a
+        # vendored project driven by an outer task) inherit whatever Conductor exports to its tasks
+        tenv = S.task_environment(root)
+        for k, cwd in enumerate(CWDS + (["vendor/lib"] if scn.get("git") else []) + ["nested"] + (["pk@task", "nested@task"] if tenv else [])):
+            inherited = {}
+            if cwd.endswith("@task"):
+                cwd = cwd[:-5]
+                inherited = {kk: vv.replace(root, os.path.join(d, "c%d" % k, "p")) for kk, vv in tenv.items()}
             cd = os.path.join(d, "c%d" % k)
             os.makedirs(cd)
             croot = os.path.join(cd, "p")
@@ -118,7 +125,7 @@ def matrix_worker(scn):
                 if f.startswith("exit_"):
                     os.unlink(os.path.join(croot, ".ctl", f))
             before = CLI.project_store(croot)
-            r = S.run_command(croot, argv_fn(cd), cwd=cwd, clock=scn.get("clock", 500))
+            r = S.run_command(croot, argv_fn(cd), cwd=cwd, clock=scn.get("clock", 500), env=inherited)
             after = CLI.project_store(croot)
             st = r.get("status")
             rows.append({"cwd": cwd, "exit": st if isinstance(st, int) else 70, "before": before, "after": after,
